@@ -350,3 +350,34 @@ def hb_take():
 
 def dbits(x):
     return struct.pack("<d", x)
+
+
+def tree_check(sim, check_mass=False):
+    """-> (problems, first message, leaves, cells, shape hash)"""
+    msg = ctypes.create_string_buffer(400)
+    out = (c_uint64 * 4)()
+    n = L2.verif_tree_check(byref(sim), int(check_mass), msg, 400, out)
+    return n, msg.value.decode("ascii", "replace"), out[0], out[1], out[2]
+
+
+def canon_particle_order(s):
+    """S view with the particle records sorted: for tree configurations, where the library documents that
+    particles are re-ordered (swap-removal and re-insertion when they change cells)"""
+    if F_PARTICLES in s:
+        b = s[F_PARTICLES]
+        recs = sorted(b[i:i + PART.size] for i in range(0, len(b), PART.size))
+        s = dict(s)
+        s[F_PARTICLES] = b"".join(recs)
+    return s
+
+
+def integrate_keeping_dt_last_done(sim, tmax, exact_finish_time):
+    """counterfactual: integrate(), but with the persisted dt_last_done put back right after integrate() zeroed it"""
+    L2.verif_hb_restore_dt_last_done.argtypes = [ctypes.c_double]
+    L2.verif_hb_restore_dt_last_done(sim.dt_last_done)
+    old = getf_ptr(sim, "heartbeat")
+    setf_ptr(sim, "heartbeat", ctypes.cast(L2.verif_heartbeat_dld, c_void_p).value)
+    try:
+        sim.integrate(tmax, exact_finish_time=exact_finish_time)
+    finally:
+        setf_ptr(sim, "heartbeat", old)
